@@ -19,12 +19,16 @@ Check(o, r) ==
 
 IsEvent(e) == l <= Len(TraceLog) /\ TraceLog[l].ev = e /\ l' = l + 1
 
-TrReset == IsEvent("reset") /\ WResetTo(TraceLog[l].limit)
+TrReset == /\ IsEvent("reset")
+           /\ IF TraceLog[l].role = "client" THEN WResetClient(TraceLog[l].limit, TraceLog[l].ser)
+              ELSE WResetTo(TraceLog[l].limit)
 
 Apply(i) ==
   CASE i.op = "hs"    -> Handshake(i.magic, i.lenn, i.sern, i.rsv)
+    [] i.op = "chs"   -> ServerReply(i.magic, i.lenn, i.sern, i.body = "eof")
     [] i.op = "frame" -> Frame(i.type, i.len, i.body, i.id)
     [] i.op = "send"  -> Send(i.n, i.id)
+    [] i.op = "race"  -> Race(i.msgs, i.pings, i.n, i.len, i.id, TraceLog[l].frames)
     [] i.op = "eof"   -> Eof
     [] i.op = "nop"   -> phase = "closed" /\ UNCHANGED <<phase, ser, sendLimit, recvLimit, cfgLimit>> /\ wobs' = NoObs
 
